@@ -62,7 +62,7 @@ struct Frame {                      // one decoded unit of daemon output on a co
 
 struct Exp {
 	enum Kind { RESP, NOTIFY, ROUTED, CLOSE } kind = RESP;
-	enum RK { R_TRUE, R_ERR_DAEMON, R_RESULT_EQ, R_ERROR_EQ, R_EITHER, R_ANYRESULT, R_GETSET } rk = R_TRUE;
+	enum RK { R_TRUE, R_ERR_DAEMON, R_RESULT_EQ, R_ERROR_EQ, R_EITHER, R_ANYRESULT, R_GETSET, R_ERR_OR_GETSET } rk = R_TRUE;
 	JV id;                      // RESP: expected id
 	JV payload;                 // RESP *_EQ / GETSET
 	JV fetchid; std::string event, path; bool check_value = false; bool has_value = false; JV value; // NOTIFY
@@ -93,7 +93,7 @@ struct Rule {                       // fetch path rule (Appendix B of DESIGN.md)
 	std::vector<M> ms; bool ci = false; bool all = false;
 	bool matches(const std::string &path) const;
 };
-// parse a strict rule object; returns 0 ok, 1 refused (daemon must answer with an error), 2 unmodelled shape
+// parse a rule object; returns 0 ok, 1 refused (daemon must answer with an error), 2 repeated option key (either refused or as given once: `out` holds the rule as given once), 3 unmodelled shape
 int parse_rule(const JV *pathobj, int max_matchers, Rule &out);
 
 struct Model {
@@ -128,6 +128,8 @@ struct Model {
 	bool allow_either_add = false, allow_either_route = false; // capacity-limited variants
 	bool route_may_fail = false;                               // descriptor-exhaustion faults are being injected
 	int max_matchers = 12;
+	std::string notify_prop = "C01";                             // property that owns notification expectations in this profile
+	int opt_decision = -1;                                      // >=0: notifications issued now are optional until that decision is known
 	bool add_local_only = false;
 	double default_timeout_s = 5.0;
 
